@@ -195,7 +195,7 @@ def sel_configs(quick):
            ("ducb2-half", _cfg(KIND="ducb", NT=2, MAXROUNDS=7 if quick else 8)),
            ("ducb2-one", _cfg(KIND="ducb", NT=2, GAMMA=S("QOne"), REWARDS=S("RewTwo") if quick else S("RewA"), MAXROUNDS=9 if quick else 8)),
            ("ducb3-two", _cfg(KIND="ducb", NT=3, REWARDS=S("RewTwo"), MAXROUNDS=9 if quick else 10))]
-    named = [("last", "none"), ("max", "max-with-0"), ("none", "none"), ("none", "neg"), ("avg", "abs"), ("davg", "none")]
+    named = [("last", "none"), ("max", "max-with-0"), ("none", "neg"), ("avg", "abs")]  # quick: the heuristics train_active_mt offers + avg/abs
     allc = [(b, o) for b in ("none", "last", "max", "avg", "davg") for o in ("none", "abs", "max-with-0", "neg")]
     for n, (b, o) in enumerate(named if quick else allc):
         rew = "RewAvg" if b == "avg" else "RewSigned"
@@ -342,7 +342,8 @@ def probe(frame):
 
 class StubLearner:
     """Obeys the train_st calling convention of the three schedulers.  mode "exact": reports start + executed;
-    "short": leaves on the episode limit before advancing its counter (as train_sac / train_td7 / train_mrq do)."""
+    "short": leaves on the episode limit before advancing its counter, so the count is one short of start + executed
+    (the defect train_td3 / train_sac / train_td7 / train_mrq / the DQN family had before the repo's `fix:` commits)."""
 
     def __init__(self, events, mode="exact", max_calls=200, rb=None, mix=None):
         self.events, self.mode, self.max_calls, self.rb, self.mix = events, mode, max_calls, rb, mix
@@ -571,7 +572,7 @@ def scenarios(seed, quick):
     for rpt in range(70 if quick else 400):
         nt = int(rng.integers(2, 5))
         sc = dict(kind="smt", id=f"smt{n}", nt=nt, K=int(rng.integers(1, nt + 1)), b1=int(rng.choice([2, 3, 5, 8, 12, 17])),
-                  b2=int(rng.choice([0, 1, 2, 4, 7])), kappa=[[1, 4], [1, 2], [3, 4], [1, 8]][int(rng.integers(0, 4))], E=int(rng.integers(1, 3)),
+                  b2=int(rng.choice([1, 2, 4, 7])), kappa=[[1, 4], [1, 2], [3, 4], [1, 8]][int(rng.integers(0, 4))], E=int(rng.integers(1, 3)),
                   nav=int(rng.integers(1, 4)), seed=int(rng.integers(0, 1000)), lens=pick(LEN_SCRIPTS, nt), rets=pick(RET_SMT, nt),
                   mode="short" if rpt % 6 == 0 else "exact")
         out.append(sc)
@@ -669,7 +670,7 @@ def judge(traces, by):
             if short_uts:
                 sens["no_progress"] += 1
             else:
-                viol.append((f"{name}:no_progress", f"{name} ({t['id']}) made no progress towards its budget: {t["exception"]}", replay))
+                viol.append((f"{name}:no_progress", f"{name} ({t['id']}) made no progress towards its budget: {t['exception']}", replay))
         elif t["exception"]:
             viol.append((f"{name}:exception:{t['exception'].split(' ')[0]}", f"{name} ({t['id']}) raised {t['exception']}", replay))
         accepted = max(verdicts) if verdicts else 0
@@ -856,21 +857,21 @@ def model_jobs(quick):
         ("canary Select_IgnoresWaiting", _cfg(KIND="rr", NT=2, MAXROUNDS=3), ["Alternates"], [], "NextSelBad", "Alternates"),
         ("canary Feedback_KeepsFirst", _cfg(KIND="gen", NT=2, MAXROUNDS=3), ["Aligned"], [], "NextGenBad", "Aligned"),
         ("sel gen2 any-tie", _cfg(KIND="gen", NT=2, BASELINE="max", OP="max-with-0", REWARDS=S("RewTwo"), GAMMA=S("QOne"), MAXROUNDS=8 if quick else 10), SEL_INV, [], "Next", None),
-        ("sel ducb2 window 3", _cfg(KIND="ducb", NT=2, GAMMA=S("QOne"), WIN=3, REWARDS=S("RewTwo"), MAXROUNDS=9 if quick else 11), SEL_INV, [], "Next", None),
         ("uts", _cfg(MODE="uts", NT=2, T=6, EPI=2, MAXLEN=3, MAXROUNDS=8), ACC_INV, [], "Next", None),
         ("canary uts learner one short: counter", _cfg(MODE="uts", NT=2, T=6, EPI=1, MAXLEN=3, MAXROUNDS=8, LMODE="short"), ["UtsExact"], [], "Next", "UtsExact"),
         ("canary uts learner one short: budget", _cfg(MODE="uts", NT=2, T=6, EPI=1, MAXLEN=3, MAXROUNDS=8, LMODE="short"), ["BudgetRespected"], [], "Next", "BudgetRespected"),
         ("amt rr", _cfg(MODE="amt", KIND="rr", NT=3, T=7, EPI=2, MAXLEN=2), ACC_INV, [], "Next", None),
         ("amt gen", _cfg(MODE="amt", KIND="gen", NT=2, T=7 if quick else 9, EPI=1, MAXLEN=2, BASELINE="max", OP="max-with-0"), ACC_INV + ["InitialRoundsCoverAll", "ChoiceMaximises"], [], "Next", None),
-        ("amt learner one short (insensitive)", _cfg(MODE="amt", KIND="rr", NT=2, T=6, EPI=2, MAXLEN=2, LMODE="short"), ACC_INV, [], "Next", None),
         ("canary AmtCall_CountsReported", _cfg(MODE="amt", KIND="rr", NT=2, T=4, EPI=1, MAXLEN=2, LMODE="short"), ["PerTaskExact"], [], "NextAmtBad", "PerTaskExact"),
         ("smt K=2", _cfg(MODE="smt", NT=3, KK=2, T=5, B2=2, EPI=1, MAXLEN=2, NAV=2), ACC_INV, P, "Next", None),
-        ("smt E=2", _cfg(MODE="smt", NT=3, KK=2, T=6, B2=3, EPI=2, MAXLEN=2, NAV=1), ACC_INV, P, "Next", None),
-        ("smt learner one short (insensitive)", _cfg(MODE="smt", NT=3, KK=2, T=4, B2=2, EPI=1, MAXLEN=2, NAV=1, LMODE="short"), ACC_INV, P, "Next", None),
         ("canary SmtSweepEnd_KeepsInMain", _cfg(MODE="smt", NT=3, KK=1, T=4, B2=1, EPI=1, MAXLEN=2, NAV=1), ["Partition"], [], "NextSmtBad", "Partition"),
     ]
     if not quick:
         jobs += [
+            ("smt learner one short (insensitive)", _cfg(MODE="smt", NT=3, KK=2, T=4, B2=2, EPI=1, MAXLEN=2, NAV=1, LMODE="short"), ACC_INV, P, "Next", None),
+            ("smt E=2", _cfg(MODE="smt", NT=3, KK=2, T=6, B2=3, EPI=2, MAXLEN=2, NAV=1), ACC_INV, P, "Next", None),
+            ("amt learner one short (insensitive)", _cfg(MODE="amt", KIND="rr", NT=2, T=6, EPI=2, MAXLEN=2, LMODE="short"), ACC_INV, [], "Next", None),
+            ("sel ducb2 window 3", _cfg(KIND="ducb", NT=2, GAMMA=S("QOne"), WIN=3, REWARDS=S("RewTwo"), MAXROUNDS=9 if quick else 11), SEL_INV, [], "Next", None),
             ("smt K=1 kappa 1/4", _cfg(MODE="smt", NT=3, KK=1, T=6, B2=2, EPI=1, MAXLEN=2, NAV=2, KAPPA=S("QQuarter")), ACC_INV, P, "Next", None),
             ("smt K=3", _cfg(MODE="smt", NT=3, KK=3, T=5, B2=2, EPI=1, MAXLEN=2, NAV=1, KAPPA=S("QQuarter")), ACC_INV, P, "Next", None),
             ("smt b2=0", _cfg(MODE="smt", NT=2, KK=1, T=4, B2=0, EPI=1, MAXLEN=2, NAV=1), ACC_INV, P, "Next", None),
